@@ -67,6 +67,10 @@ def _norm(v):
     return v
 
 
+def _round(point):
+    return [float("%.12g" % v) if isinstance(v, float) else v for v in (_norm(x) for x in point)]
+
+
 class Recorder:
     def __init__(self):
         self.tok, self.events, self.depth, self.cl, self.stray, self.top = {}, [], 0, [], 0, None
@@ -109,7 +113,7 @@ def observed(rec):
         finally:
             rec.depth = 0
         pts = [out] if n_points is None else list(out)
-        rec.events.append([0, 0 if n_points is None else int(n_points), STRAT.get(strategy, 2), rec.cl, rec.tokens(pts)])
+        rec.events.append([0, 0 if n_points is None else int(n_points), STRAT.get(strategy, 2), rec.cl, rec.tokens(pts), [list(p) for p in pts]])
         return out
 
     def tell(self, x, y, fit=True):
@@ -214,7 +218,7 @@ def run_cbo(case):
 
     rec = Recorder()
     d = tempfile.mkdtemp(prefix="vp_c08_")
-    error, rows = None, []
+    error, rows = None, None
     try:
         with warnings.catch_warnings():
             warnings.simplefilter("ignore")
@@ -233,7 +237,10 @@ def run_cbo(case):
                     df = search.search(max_evals=case["evals"])
                     cols = ["p:x%d" % i for i in range(len(dims))]
                     df = df.assign(_jid=[int(str(j).split(".")[-1]) for j in df["job_id"]]).sort_values("_jid")
-                    rows = rec.tokens(df[cols].values.tolist())
+                    # the results are read back from results.csv: floats may differ by an ulp (pandas' parser), hence the rounding
+                    rnd = Recorder()
+                    props_r = rnd.tokens([_round(k) for e in rec.events if e[0] == 0 for k in e[5]])
+                    rows = [props_r, rnd.tokens([_round(r) for r in df[cols].values.tolist()])]
                 except Exception as e:  # noqa: BLE001 - reported as a failure of the case
                     error = "%s: %s" % (type(e).__name__, str(e)[:300])
             with contextlib.suppress(Exception):
@@ -258,6 +265,7 @@ def locate(events, idx):
 
 def judge(res, cfg, n0, inits, events, N, extra_rows=None):
     """Shared verdict of the trace streams: direct oracle first, then acceptance."""
+    events = [e[:5] for e in events]
     props = [t for e in events if e[0] == 0 for t in e[4]]
     npre = N if N is not None else len(props)
     acc, ridx, rcode, hb, _sampled = model().call(F_REPLAY, [cfg, n0, inits, events])
@@ -283,12 +291,20 @@ def judge(res, cfg, n0, inits, events, N, extra_rows=None):
         res["sig"]["where"] = REJECT.get(rcode, str(rcode))
         return dict(res, ok=False, kind="corr", clause="reject:" + REJECT.get(rcode, str(rcode)),
                     detail=dict(rejected_event=ridx, event=_short(events[ridx]), proposals=props, hyps=hyps))
+    sched = [(h, b) for h, b in hb if h >= 2]
+    if sched:
+        # C08_cbo_schedule: the ask / tell loop of CBO.search only produces the codes 0 and 1; anything else means that the search
+        # asked twice without telling (or used an option outside the property): the theorem no longer covers this search
+        h, b = sched[0]
+        res["sig"]["where"] = "%s/%s" % (BRANCH.get(b, str(b)), HYP.get(h, str(h)))
+        return dict(res, ok=False, kind="corr", clause="schedule:" + HYP.get(h, str(h)), detail=dict(hyps=hyps, proposals=props))
     if ok and all(h == 0 for h in hyps) and len(set(props)) != len(props):
         # accepted, every hypothesis of C08_nodup holds, yet a repeat (beyond the first N): contradicts the theorem -> harness/model bug
         return dict(res, ok=False, kind="corr", clause="theorem_contradicted", detail=dict(proposals=props))
     if extra_rows is not None:
+        props_r, extra_rows = extra_rows
         okr, firstr = model().call(F_PREFIX, [npre, extra_rows])
-        left = list(props)
+        left = list(props_r)
         stray = []
         for t in extra_rows:
             if t in left:
@@ -296,9 +312,9 @@ def judge(res, cfg, n0, inits, events, N, extra_rows=None):
             else:
                 stray.append(t)
         if stray:
-            return dict(res, ok=False, kind="corr", clause="rows_not_proposed", detail=dict(rows=extra_rows, proposals=props, stray=stray))
+            return dict(res, ok=False, kind="corr", clause="rows_not_proposed", detail=dict(rows=extra_rows, proposals=props_r, stray=stray))
         # rows are in submission order; they are the proposals unless a job was still running when the search stopped
-        if extra_rows == props[: len(extra_rows)]:
+        if extra_rows == props_r[: len(extra_rows)]:
             if not okr and ok:
                 return dict(res, ok=False, kind="oracle", clause="duplicate_rows", detail=dict(rows=extra_rows, first_repeat_index=firstr))
         else:
@@ -347,12 +363,26 @@ def gen_dims(rng, lo=4, hi=64):
             return dims
 
 
-def gen_cbo(count, surrogates, big=False):
+def gen_cont_dims(rng):
+    dims = [["real", float(rng.choice([0, -5, 1])), float(rng.choice([10, 20, 100]))]]
+    for _ in range(rng.randint(0, 2)):
+        k = rng.choice(["real", "int", "cat"])
+        if k == "real":
+            dims.append(["real", 0.0, 1.0])
+        elif k == "int":
+            dims.append(["int", 0, rng.choice([3, 50, 1000])])
+        else:
+            dims.append(["cat", ["a", "b", "c", "d"][: rng.randint(2, 4)]])
+    rng.shuffle(dims)
+    return dims
+
+
+def gen_cbo(count, surrogates, big=False, cont=False):
     def g(rng, tier):
         n = count * (3 if tier == "search" else 1)
         for i in range(n):
-            dims = gen_dims(rng, 4, 24 if (tier == "search" or i % 3) and not big else 64)
-            N = space_size(dims)
+            dims = gen_cont_dims(rng) if cont else gen_dims(rng, 4, 24 if (tier == "search" or i % 3) and not big else 64)
+            N = space_size(dims) or rng.randint(12, 40)
             sur = surrogates[i % len(surrogates)]
             strat = rng.choice(["cl_min", "cl_mean", "cl_max", "qUCB", "qUCBd", "qUCB", "qUCBd"])
             if sur == "GP" and strat == "qUCBd":
@@ -371,7 +401,7 @@ def gen_cbo(count, surrogates, big=False):
             else:
                 fail = ["none"]
             evals = min(N + rng.randint(0, 2 * nw), 90)
-            c = dict(dims=dims, sur=sur, strat=strat, nw=nw, seed=rng.randrange(10 ** 6), ninit=ninit, evals=evals, npts=max(200, 40 * N),
+            c = dict(dims=dims, sur=sur, strat=strat, nw=nw, seed=rng.randrange(10 ** 6), ninit=ninit, evals=evals, npts=max(200, 40 * N) if not cont else rng.choice([200, 500]),
                      ff=rng.choice(["min", "mean", "ignore", "ignore"] if fm != "none" else ["min", "mean", "ignore"]), fail=fail,
                      acq="UCB" if sur == "GP" else rng.choice(["UCBd", "UCBd", "UCB", "EI"]),
                      weights=[rng.randint(-3, 3) for _ in dims], yields=rng.choice([0, 0, 1, 3]), gather=rng.choice(["BATCH", "BATCH", "ALL"]))
@@ -467,7 +497,7 @@ def check_opt(case):
     res = dict(ok=True, kind="oracle", clause="", nontrivial=False, sig=dict(surrogate=case["sur"], level="optimizer"),
                desc=["sur=" + case["sur"], "N=%s" % N, "ops=%d" % len(case["ops"])])
     rec, cfg, inits, error = run_opt(case)
-    events = rec.events
+    events = [e[:5] for e in rec.events]
     if error is not None:
         # the model predicts the documented RuntimeError/AttributeError (no _next_x): the history up to the failing call must be accepted
         kind = error.split(":")[0]
@@ -597,6 +627,8 @@ def streams(tier):
         Stream("cbo_search", gen_cbo(1500 if th else 160, ["ET", "DUMMY", "ET", "RF", "ET", "DUMMY"] if th else ["ET", "ET", "DUMMY"], big=False),
                check_cbo, shrink_cbo, timeout=300),
     ]
+    ss.append(Stream("cbo_continuous", gen_cbo(300 if th else 24, ["ET", "DUMMY", "RF"] if th else ["ET", "ET", "DUMMY"], cont=True), check_cbo, shrink_cbo, timeout=300))
     if th:
         ss.append(Stream("cbo_search_gp", gen_cbo(60, ["GP"]), check_cbo, shrink_cbo, timeout=600))
+        ss.append(Stream("cbo_continuous_gp", gen_cbo(16, ["GP"], cont=True), check_cbo, shrink_cbo, timeout=600))
     return ss
